@@ -55,6 +55,8 @@ REMOVED = "std::collections::HashMap::remove(self.substreams, id)@Some.0"
 
 
 def check(ctx):
+    lib_mux.canon_roles(ctx.prog, 'libp2p_mplex')
+    lib_mux.canon_roles(ctx.prog, 'libp2p_yamux')
     old = mir.RENDER_MAX[0]
     mir.RENDER_MAX[0] = 40
     try:
@@ -74,12 +76,24 @@ def _read_side(ctx):
     sw, FR, arms = lib_mux.frame_switch(rs)
     z = lib_mux.zero_assigns(rs)
     OWNBUF = "libp2p_mplex::io::SubstreamState::recv_buf(std::collections::HashMap::get_mut(self.substreams, id)@Some.0)"
+    helpers = lib_mux.inline_view(prog, rs)           # a block extracted into a single-use private helper reads as if still inline
+    hsum = {}                                        # helper call (rendered) -> (rendered Some-payloads it can return, helper, call site)
+    for via, h in helpers:
+        hz = lib_mux.zero_assigns(h)
+        pays = [v[len("std::option::Option::Some{0: "):-1] for v in hz.values() if v.startswith("std::option::Option::Some{0: ")]
+        if pays and all(v.startswith("std::option::Option::") for v in hz.values()):
+            hsum[render(rs.site_expr(via))] = (pays, h, via)
     some = {b: r for b, r in z.items() if r.startswith("std::task::Poll::Ready{0: std::result::Result::Ok{0: std::option::Option::Some{0: ")}
     ctx.floor("read", "Ok(Some(data)) results", sorted(some), 2)
     for b, r in sorted(some.items()):
         val = r[len("std::task::Poll::Ready{0: std::result::Result::Ok{0: std::option::Option::Some{0: "):-3]
         site = mir.Site(rs, b, [d[2] for d in rs.defs[0] if d[1] == b][0])
-        if val == "smallvec::SmallVec::remove(%s, 0)" % OWNBUF:
+        viah = [k for k in hsum if val == k + "@Some.0"]
+        if viah:          # the payload is what the helper returned in Some(..): every such value must be the front of the reader's buffer
+            pays = hsum[viah[0]][0]
+            ctx.ob("read", "buffered payload is taken from the front of the reader's own buffer", all(pv == "smallvec::SmallVec::remove(%s, 0)" % OWNBUF for pv in pays), site.loc(),
+                   "via %s: %s" % (hsum[viah[0]][1].short.split("::")[-1], [pv[-60:] for pv in pays]))
+        elif val == "smallvec::SmallVec::remove(%s, 0)" % OWNBUF:
             ctx.ob("read", "buffered payload is taken from the front of the reader's own buffer", True, site.loc(), "substreams[id].recv_buf().remove(0)")
         elif val == "%s@Data.data" % FR:
             own_eq, _ = lib_mux.eq_edges(rs, lambda t: t == "libp2p_mplex::codec::RemoteStreamId::into_local(%s@Data.stream_id)" % FR, lambda t: t == "id")
@@ -87,10 +101,10 @@ def _read_side(ctx):
             ctx.ob("read", "frame payload returned only for the reader's own id", ok, site.loc(), ("guard present on all paths: " if ok else "a path reaches this site without the guard: ") + "frame.stream_id.into_local() == id")
         else:
             ctx.ob("read", "payload origin", False, site.loc(), "Ok(Some(..)) returns a value that is neither the reader's buffered frame nor the matching Data frame: %s" % val[-120:])
-    front = [s for s in rs.call_sites(r"SmallVec::(remove|pop|swap_remove|drain)$")]
+    front = lib_mux.scoped_sites(prog, rs, r"SmallVec::(remove|pop|swap_remove|drain)$", helpers)
     ctx.floor("read", "removal from a receive buffer", front, 1)
-    for s in front:
-        r = render(rs.site_expr(s))
+    for s, owner, via in front:
+        r = render(owner.site_expr(s))
         ctx.ob("read", "buffered payload is taken from the front", r == "smallvec::SmallVec::remove(%s, 0)" % OWNBUF, s.loc(), r[-90:])
     bf = lib_mux.io_body(ctx, "buffer")
     for s in bf.call_sites(r"SmallVec::(push|insert|extend|insert_many)$"):
@@ -110,6 +124,16 @@ def _read_side(ctx):
     empty = rs.guard_edges(lambda c, r, l: (l == "true" and r == "smallvec::SmallVec::is_empty(%s)" % OWNBUF) or (l == "false" and r == "Not(smallvec::SmallVec::is_empty(%s))" % OWNBUF)) | \
         lib_mux.none_edges(rs, "std::collections::HashMap::get_mut(self.substreams, id)") | \
         lib_mux.edges_with(lib_mux.rel_edges(rs, lambda e: render(e) == "smallvec::SmallVec::len(%s)" % OWNBUF, lambda e: lib_mux.cval(e) == 0), {"eq", "le"})
+    def _empty_edges(b_):
+        return b_.guard_edges(lambda c, r, l: (l == "true" and r == "smallvec::SmallVec::is_empty(%s)" % OWNBUF) or (l == "false" and r == "Not(smallvec::SmallVec::is_empty(%s))" % OWNBUF)) | \
+            lib_mux.none_edges(b_, "std::collections::HashMap::get_mut(self.substreams, id)") | \
+            lib_mux.edges_with(lib_mux.rel_edges(b_, lambda e: render(e) == "smallvec::SmallVec::len(%s)" % OWNBUF, lambda e: lib_mux.cval(e) == 0), {"eq", "le"})
+    for k, (pays, h, via) in hsum.items():
+        # the helper returns None only when the buffer is empty / the substream unknown: then the caller's None edge of the call means "empty"
+        hz = lib_mux.zero_assigns(h)
+        he = _empty_edges(h)
+        if he and all(h.must_pass_edges(bb, he) for bb, v in hz.items() if v == "std::option::Option::None{}"):
+            empty = empty | lib_mux.none_edges(rs, k)
     for s in prf:
         ctx.ob("read", "the socket is read only when the reader's buffer is empty", bool(empty) and rs.must_pass_edges(s.bb, empty), s.loc(), "every path to poll_read_frame passes buf.is_empty() (or the substream is unknown)")
         ctx.ob("read", "the reader registers interest under its own id", render(rs.site_expr(s)[2][2]) == "std::option::Option::Some{0: id}", s.loc(), render(rs.site_expr(s)[2][2]))
@@ -353,7 +377,7 @@ def _write_side(ctx):
     zs = lib_mux.zero_assigns(ps)
     for b, r in zs.items():
         if r == "std::task::Poll::Ready{0: std::result::Result::Ok{0: tuple{}}}":
-            ctx.ob("write", "poll_send_frame reports Ready(Ok) only if start_send accepted the frame", bool(ss) and ps.must_pass_edges(b, lib.switch_edges_on_site(ps, ss[0], {"Ok"})), _w(ps), "dominated by start_send Ok")
+            ctx.ob("write", "poll_send_frame reports Ready(Ok) only if start_send accepted the frame", bool(ss) and ps.must_pass_edges(b, lib_mux.ok_edges(ps, ss[0])), _w(ps), "dominated by start_send Ok")
     # split_send_size <= MAX_FRAME_SIZE
     writers = []
     for b in prog.bodies(MP):
